@@ -382,17 +382,59 @@ def c11_oracle(ops, outs):
                     else:
                         sig = "deleted-row-back-after-local-write"
                     res.append((sig, "peer %d shows row %s (mdate %d) although it stores its deletion record; after `%s`" % (pi, rid, n["mdate"], op)))
+            # references: once the peer stores the deletion record of a reference, that reference (same ends, same
+            # creation date) is never shown again
+            for t in p.etombs:
+                key = (t["src"], t["dest"], t["cdate"])
+                if any((e[0], e[1], int(e[2])) == key for e in p.edges) and ("edge", pi, key) not in seen:
+                    seen.add(("edge", pi, key))
+                    res.append(("deleted-reference-back", "peer %d shows the reference %s->%s (created %d) although it stores its deletion record; after `%s`" % (pi, t["src"], t["dest"], t["cdate"], op)))
         prev = peers
     for room, rounds, quiet, f, peers in final_settles(ops, outs):
         if not quiet: continue
         for pi, p in enumerate(peers):
-            for q in peers:
+            for qi, q in enumerate(peers):
                 for t in q.ntombs:
                     if room != "0" and t["room"] != room: continue
                     if not any(u["id"] == t["id"] and u["sig"] == t["sig"] for u in p.ntombs) and ("rec", t["id"]) not in seen:
                         seen.add(("rec", t["id"]))
-                        res.append(("deletion-record-missing-after-quiescence", "room %s: peer %d lacks a deletion record of row %s" % (room, pi, t["id"])))
+                        # known cause: two records of that row dated the same day, of which an answer keeps one
+                        twin = any(u is not t and u["id"] == t["id"] and day_of(u["ddate"]) == day_of(t["ddate"])
+                                   for r in peers for u in r.ntombs if u["sig"] != t["sig"])
+                        n = p.nodes.get(t["id"])
+                        sp, sq = _summary(p, t["room"]), _summary(q, t["room"])
+                        if twin:
+                            sig = "deletion-record-missing-after-quiescence"
+                        elif sp is not None and sp == sq and sp[2] != "-":
+                            # the two room summaries (first entity of the last day) agree: nothing is compared (C03)
+                            sig = "deletion-missing-room-summaries-equal"
+                        elif n is not None and n["author"] != t["author"] and not _all_rows_at(ops[0], t["author"], t["ddate"]):
+                            # the peer holds a version by somebody else: the deleter is asked for the all-rows right (#19)
+                            sig = "deletion-refused-local-version-by-other-author"
+                        elif n is not None and n["mdate"] <= t["mdate"]:
+                            sig = "deletion-not-applied-by-peer-after-quiescence"
+                        else:
+                            sig = "deletion-record-not-stored-by-peer-after-quiescence"
+                        res.append((sig, "room %s: peer %d lacks the deletion record of row %s (version %d, deleted %d by %s) that peer %d stores%s" % (
+                            room, pi, t["id"], t["mdate"], t["ddate"], t["author"], qi, "; it still shows the row" if n is not None else "")))
+                for t in q.etombs:
+                    if room != "0" and t["room"] != room: continue
+                    key = (t["src"], t["dest"], t["cdate"])
+                    if any((e[0], e[1], int(e[2])) == key for e in p.edges) and not any(u["sig"] == t["sig"] for u in p.etombs) \
+                            and ("edge-q", key) not in seen:
+                        seen.add(("edge-q", key))
+                        res.append(("deleted-reference-visible-after-quiescence", "room %s: peer %d shows the reference %s->%s (created %d) whose deletion record peer %d stores" % (
+                            room, pi, t["src"], t["dest"], t["cdate"], qi)))
     return res
+
+
+def _all_rows_at(case_line, author, date):
+    """does that member hold the all-rows right at that date (rights=a,s,l grant=T of the case line)"""
+    _, a = kv(case_line)
+    rights = a.get("rights", "").split(",")
+    if not author.isdigit() or int(author) >= len(rights): return False
+    r = rights[int(author)]
+    return r == "a" or (r == "l" and a.get("grant", "").isdigit() and date >= int(a["grant"]))
 
 
 def c11_nontrivial(ops, outs):
